@@ -185,9 +185,26 @@ const day = 24 * time.Hour
 // longExpiries: reference data is cached for months; 100/101/102 days straddle MaxInt64/1050 ns.
 var longExpiries = []time.Duration{30 * day, 100 * day, 101 * day, 102 * day, 180 * day, 365 * day, 3650 * day, 36 * time.Hour}
 
+// oddExpiries: configured expiries that are legal (positive) and unusual: below a second - the
+// statement rounds the jittered expiry UP to whole seconds, so all of these mean a TTL of 1 s (999 ms
+// and 960 ms: 1 s or 2 s) -, exactly one second, just above it, and not a whole number of seconds.
+// 1 ns is the smallest positive duration (what WithExpiry(1) means), 20 ns a bare small number.
+var oddExpiries = []time.Duration{300 * time.Millisecond, time.Millisecond, 999 * time.Millisecond, time.Second, 1500 * time.Millisecond,
+	2001 * time.Millisecond, time.Nanosecond, 20 * time.Nanosecond, 960 * time.Millisecond, time.Second + time.Nanosecond, 400 * time.Millisecond, 2500 * time.Microsecond}
+
+func oddClass(d time.Duration) string {
+	switch {
+	case d < time.Second:
+		return "below-1s"
+	case d == time.Second:
+		return "exactly-1s"
+	}
+	return "fractional-seconds"
+}
+
 // explicit expiries of SetWithExpire
 var explicitExpiries = []time.Duration{7 * time.Second, time.Second, 1500 * time.Millisecond, 40 * time.Second, 3 * time.Minute,
-	2 * time.Hour, 30 * day, 102 * day, 180 * day, 3650 * day}
+	2 * time.Hour, 30 * day, 102 * day, 180 * day, 3650 * day, 300 * time.Millisecond, 2001 * time.Millisecond, time.Millisecond}
 
 const ttlSlack = time.Microsecond // go-zero multiplies through float64
 
